@@ -223,4 +223,24 @@ def run (m : PM V Unit) (vars : Nat → V) : Except Err Unit × PSt V := (Except
 def initVars [Inhabited V] (l : List V) : Nat → V := fun k => l.getD k default
 end PM
 
+/-! ## the two ends of a multiplexed pipeline on an ordinary observable: `mux_observable` (items → events of the root key `(0,)`)
+and `demux_observable` (events → items), rxsci/operators/multiplex.py -/
+
+structure RSt (α : Type) where
+  /-- `observer.on_next(x)` so far, oldest first -/
+  out : List α := []
+  completed : Bool := false
+  /-- `observer.on_error(e)` (the first one) -/
+  failed : Option Err := none
+
+abbrev RM (α : Type) := ExceptT Err (StateM (RSt α))
+
+namespace RM
+variable {α : Type}
+def emit (x : α) : RM α Unit := modify fun s => { s with out := s.out ++ [x] }
+def complete : RM α Unit := modify fun s => { s with completed := true }
+def fail (e : Err) : RM α Unit := modify fun s => { s with failed := s.failed <|> some e }
+def run {β} (m : RM α β) (s : RSt α) : Except Err β × RSt α := (ExceptT.run m).run s
+end RM
+
 end Rx
